@@ -309,7 +309,7 @@ C_LINE = re.compile(r"^ {0,4}[cC]( |$)")
 # line.endswith(" &\n") evaluated on every line): trigger predicates of the known findings decide from these
 UNTIDY = ("amp_trailing_blank", "amp_last_column", "amp_then_comment", "comment_ends_amp", "dollar_ends_amp")
 SAFE = ("amp_low_indent", "trailing_blanks", "indented_comment", "crlf", "message_added", "message_removed",
-        "comment_trailing_blanks", "tail_text", "tabify", "card_indent", "comment_case", "amp_at_limit", "tab_indent")
+        "comment_trailing_blanks", "tail_text", "tabify", "card_indent", "comment_case", "amp_at_limit", "tab_indent", "comment_tab")
 FEATURES = SAFE + UNTIDY
 
 
@@ -433,6 +433,14 @@ def relayout(rng, text, allow=FEATURES, width=128):
                 and xlen(l.rstrip()) + 9 < width:
             l = l.rstrip() + " see a &"
             feats.add("comment_ends_amp")
+        if is_c and "comment_tab" in allow and r[15] < 0.3:
+            # a tab instead of the blank after the C of a comment line (the tab stands for the blanks up to column 9)
+            m = re.match(r"^( {0,4}[cC]) (?=\S)", l)
+            if m:
+                cand = m.group(1) + "\t" + l[m.end():]
+                if xlen(cand) < width:
+                    l = cand
+                    feats.add("comment_tab")
         if (not is_c) and (not is_blank) and "$" in l and "dollar_ends_amp" in allow and r[8] < 0.2 \
                 and xlen(l.rstrip()) + 3 < width:
             l = l.rstrip() + " &"
